@@ -1012,8 +1012,24 @@ func (g *EG) splat(depth int) ast.Node {
 	full := g.chance(2, "fullsplat")
 	var src ast.Node
 	var ety cty.Type = cty.DynamicPseudoType
-	k := g.intn(9, "splatsrc")
-	if k < 6 {
+	k := g.intn(11, "splatsrc")
+	if k >= 10 {
+		// a map or object from the scope: neither is a sequence, so the splat applies to the
+		// value as a whole (it is wrapped in a single-element tuple)
+		for _, p := range g.shufflePaths() {
+			if p.ty.IsMapType() || p.ty.IsObjectType() {
+				g.feat("splat_map_or_object")
+				src = p.node
+				if p.ty.IsMapType() {
+					ety = p.ty
+				} else {
+					ety = p.ty
+				}
+				break
+			}
+		}
+	}
+	if src == nil && k < 6 {
 		for _, p := range g.shufflePaths() {
 			if p.ty.IsListType() || p.ty.IsSetType() {
 				src, ety = p.node, p.ty.ElementType()
